@@ -23,7 +23,7 @@ WORDS = ["alpha", "beta", "gamma", "delta", "omega", "sigma", "kappa", "zeta"]
 
 LANGS = ["English (en)", "French (fr)", "es", "Klingon", "default", "English", "French", "O’zbek (uz)", "Chinese (Simplified) (zh)"]
 
-NAME_PREFIX = ["q", "a", "x_", "n-", "v.", "é", "_", "Q", "k9", "guidance_hint_", "hint", "label_", "q_guidance_hint", "group_", "repeat_", "meta_", "jr_", "É", "Ö", "À", "Øx", "ÿ"]
+NAME_PREFIX = ["q", "a", "x_", "n-", "v.", "é", "_", "Q", "k9", "guidance_hint_", "hint", "label_", "q_guidance_hint", "group_", "repeat_", "meta_", "jr_", "É", "Ö", "À", "Øx", "ÿ", "𠮷", "नाम", "ชื่อ", "col·legi", "cafe\u0301"]
 
 
 _INSTANCE_CALL = __import__("re").compile(r"""instance\(\s*("[^"]*"|'[^']*')\s*\)""")
@@ -224,7 +224,7 @@ class G:
         if self.P.get("p_last_saved", 0) and self.p("p_last_saved"):
             choices = [lambda: "${last-saved#%s} = %s" % (self.pick(nm), L)]
         if self.P.get("p_pulldata", 0) and self.p("p_pulldata"):
-            f = self.pick(["fruits", "pd2"])
+            f = self.pick(["fruits", "pd2", "données"])
             sp = self.pick(["", "", " ", "  "])      # XPath allows white space between a function name and its parenthesis
             choices = [lambda: f"pulldata{sp}('{f}', 'c', 'k', {r()}) = {L}"]
             if self.p("_", 0.1):
@@ -284,6 +284,8 @@ class G:
         extra_cols = []
         if self.p("p_extra_cols", 0.3):
             extra_cols = [f"e{j}" for j in range(self.integer(1, 2))]
+            if self.p("_", 0.15):
+                extra_cols = [self.pick(["_zone", "__rank", "_e"])] + extra_cols[:1]      # legal XML names, whatever Python thinks of underscores
             if self.P.get("extra_col_names") and self.p("_", 0.4):
                 extra_cols = [self.pick(self.P["extra_col_names"])]
             if self.P.get("p_tag_names", 0) and self.p("p_tag_names"):
@@ -399,6 +401,8 @@ class G:
         base = self.pick(types)
         if table_list is not None and base not in ("select_one", "select_multiple"):
             base = self.pick(["select_one", "select_multiple", "text", "note"])
+        if base == "integer" and self.P.get("p_percentage", 0) and self.p("p_percentage"):
+            base = "percentage"       # legacy type whose table entry brings a constraint of its own
         c = {}
         nm = self.name()
         tcell = base
@@ -481,7 +485,7 @@ class G:
                 c["type"] = tcell
         elif visible and P("p_appearance", 0.15) and table_list is None:
             ap = {"text": ["multiline", "numbers"], "integer": ["thousands-sep"], "select_one": ["minimal", "quick", "likert", "columns-pack"],
-                  "select_multiple": ["minimal", "columns"], "date": ["month-year", "no-calendar"], "image": ["annotate", "draw", "signature"],
+                  "select_multiple": ["minimal", "columns"], "date": ["month-year", "no-calendar"], "image": ["annotate", "draw", "signature", "new", "new-front"],
                   "geopoint": ["maps", "placement-map"], "note": ["custom-x"]}.get(base, ["w1", "custom app"])
             c["appearance"] = self.pick(ap)
         if self.entities_enabled and not inside_repeat and base not in ("note",) and P("p_save_to", 0.3):
@@ -557,7 +561,7 @@ class G:
         if kind == "from_file":
             sel = self.pick(["select_one_from_file", "select_multiple_from_file"])
             # one extension per stem: the same stem with two extensions is a documented id clash
-            f = self.pick(["cities.csv", "fruits.csv", "geo.geojson", "places.xml"])
+            f = self.pick(["cities.csv", "fruits.csv", "geo.geojson", "places.xml", "données.csv"])
             c = {"type": f"{sel} {f}", "name": self.name(), "label": self.text("L")}
             if self.p("_", 0.4):
                 # parameter names are case-insensitive, the column names they carry are not
